@@ -17,11 +17,25 @@
   `akeHasFinished_run` state the outcomes; every API call under failing/short reads at every index is
   compared with the implementation by the `life`, `parse` and `keyfile` profiles, whose oracle flags
   any Go panic, any call slower than 2 s and any allocation out of proportion.
+  Whole API (Proofs.NoPanic*): `Inv` is an invariant of the conversation (SMP context consistent, an
+  encrypted conversation has version, DH key pair and both long-term keys, the AKE context holds what
+  its state relies on); `inv_init`: it holds for every freshly created conversation (any policies,
+  version preset or not, any key list incl. empty). `receive_no_panic` / `receive_preserves_inv` and the
+  same pair for Send, End, StartAuthenticate, ProvideAuthenticationSecret, AbortAuthentication,
+  UseExtraSymmetricKey: from `Inv` no call reaches a panic site of the model, for every argument, every
+  randomness tape (including failing and short reads) and every signing-oracle answer (including
+  failure), and `Inv` holds again whether the call returned or threw. `api_sequence_no_panic(_fresh)`:
+  hence no sequence of API calls, each with its own arbitrary arguments, tapes and clock, reaches a
+  panic from a freshly created conversation. Hypotheses `CryptoOK K` on the abstract cryptography only:
+  ModInverse succeeds off the multiples of p (p prime), MAC output of at least 20 bytes.
+  (The one panic this proof found reachable, `encrypt: dst[:aes.BlockSize]` for a degenerate DH-commit
+  exponent, was repaired in the Go code and the model; no tape hypothesis remains.)
 -/
 
 import Proofs.ConvData
 import Proofs.ConvLife
 import Proofs.KeyFile
+import Proofs.NoPanic
 namespace Otr.C13
 open Otr
 
@@ -53,5 +67,44 @@ theorem read_total : type_of% @Otr.read_total := @Otr.read_total
 theorem readListItem_total : type_of% @Otr.readListItem_total := @Otr.readListItem_total
 
 theorem goodValue_readValue : type_of% @Otr.goodValue_readValue := @Otr.goodValue_readValue
+
+/-! the whole API: invariant, no panic, sequences of calls (Proofs.NoPanicBase, Proofs.NoPanicAke, Proofs.NoPanic) -/
+theorem inv_init : type_of% @Otr.inv_init := @Otr.inv_init
+
+theorem processAKE_no_panic : type_of% @Otr.processAKE_no_panic := @Otr.processAKE_no_panic
+
+theorem receive_no_panic : type_of% @Otr.receive_no_panic := @Otr.receive_no_panic
+
+theorem receive_preserves_inv : type_of% @Otr.receive_preserves_inv := @Otr.receive_preserves_inv
+
+theorem send_no_panic : type_of% @Otr.send_no_panic := @Otr.send_no_panic
+
+theorem send_preserves_inv : type_of% @Otr.send_preserves_inv := @Otr.send_preserves_inv
+
+theorem endSession_no_panic : type_of% @Otr.endSession_no_panic := @Otr.endSession_no_panic
+
+theorem endSession_preserves_inv : type_of% @Otr.endSession_preserves_inv := @Otr.endSession_preserves_inv
+
+theorem startAuthenticate_no_panic : type_of% @Otr.startAuthenticate_no_panic := @Otr.startAuthenticate_no_panic
+
+theorem startAuthenticate_preserves_inv : type_of% @Otr.startAuthenticate_preserves_inv := @Otr.startAuthenticate_preserves_inv
+
+theorem provideAuthenticationSecret_no_panic : type_of% @Otr.provideAuthenticationSecret_no_panic := @Otr.provideAuthenticationSecret_no_panic
+
+theorem provideAuthenticationSecret_preserves_inv : type_of% @Otr.provideAuthenticationSecret_preserves_inv := @Otr.provideAuthenticationSecret_preserves_inv
+
+theorem abortAuthentication_no_panic : type_of% @Otr.abortAuthentication_no_panic := @Otr.abortAuthentication_no_panic
+
+theorem abortAuthentication_preserves_inv : type_of% @Otr.abortAuthentication_preserves_inv := @Otr.abortAuthentication_preserves_inv
+
+theorem useExtraSymmetricKey_no_panic : type_of% @Otr.useExtraSymmetricKey_no_panic := @Otr.useExtraSymmetricKey_no_panic
+
+theorem useExtraSymmetricKey_preserves_inv : type_of% @Otr.useExtraSymmetricKey_preserves_inv := @Otr.useExtraSymmetricKey_preserves_inv
+
+theorem apiCall_inv : type_of% @Otr.apiCall_inv := @Otr.apiCall_inv
+
+theorem api_sequence_no_panic : type_of% @Otr.api_sequence_no_panic := @Otr.api_sequence_no_panic
+
+theorem api_sequence_no_panic_fresh : type_of% @Otr.api_sequence_no_panic_fresh := @Otr.api_sequence_no_panic_fresh
 
 end Otr.C13
